@@ -71,6 +71,70 @@ fn expect_http(s: &mut Session, method: &str, target: &str, want: Option<(&str, 
 /// the application closes in the middle of its handshake: every prefix of a SOCKS5 greeting + request (each address
 /// kind), of a plain HTTP request and of a CONNECT request, followed by end of stream.  The handshake must end (no
 /// panic, no waiting for bytes that cannot come), and may open a tunnel only where the bytes received already decide it.
+/// unsupported / malformed whole handshakes (origin-form, CONNECT without port, over-long and empty names, BIND, UDP
+/// ASSOCIATE, wrong version, unknown address type): no tunnel
+pub fn handshake_refused(s: &mut Session) {
+    s.begin_case("handshake-refused");
+    let bad: Vec<(&str, Vec<Vec<u8>>, Option<usize>)> = vec![
+        ("http", vec![b"GET /index.html HTTP/1.1\r\nHost: example.com\r\n\r\n".to_vec()], None),
+        ("http", vec![b"CONNECT example.com HTTP/1.1\r\n\r\n".to_vec()], None),
+        ("http", vec![format!("GET http://{}/ HTTP/1.1\r\n\r\n", "h".repeat(300)).into_bytes()], None),
+        ("http", vec![b"\x16\x03\x01\x02\x00\x01\x00\x01\xfc\x03\x03 junk that is not a proxy request\r\n\r\n".to_vec()], None),
+        ("socks5", vec![vec![5, 1, 0], vec![5, 2, 0, 1, 1, 2, 3, 4, 0, 80]], Some(1)),
+        ("socks5", vec![vec![5, 1, 0], vec![5, 3, 0, 1, 0, 0, 0, 0, 0, 0]], Some(1)),
+        ("socks5", vec![vec![5, 1, 0], vec![5, 1, 0, 3, 0, 0, 80]], Some(1)),
+        ("socks5", vec![vec![5, 1, 0], vec![4, 1, 0, 1, 1, 2, 3, 4, 0, 80]], Some(1)),
+        ("socks5", vec![vec![5, 1, 0], vec![5, 1, 0, 9, 1, 2, 3, 4, 0, 80]], Some(1)),
+    ];
+    for (kind, segs, split) in bad {
+        let r = s.run(&format!("hs.run {} {}{} marker=4d", kind, segs.iter().map(|p| hex(p)).collect::<Vec<_>>().join(";"), split.map(|x| format!(" split={}", x)).unwrap_or_default()));
+        if r.starts_with("ok") {
+            s.oracle_fail("handshake-refused", &format!("a malformed or unsupported {} handshake opened a tunnel: {}", kind, &r[..r.len().min(80)]));
+        }
+    }
+    s.mark_nontrivial();
+
+}
+
+/// the application writes its whole request and half-closes at once (the FIN is there before the proxy looks): a
+/// complete plain request / CONNECT is served exactly like one from a client that keeps its sending side open
+pub fn handshake_half_closed(s: &mut Session) {
+    s.begin_case("handshake-half-closed");
+    let get = b"GET http://half.example:8081/x?y=1 HTTP/1.0\r\nHost: half.example\r\n\r\n".to_vec();
+    let r = s.run(&format!("hs.run http {} marker=- fin=1", hex(&get)));
+    if r != format!("ok d:{}:8081 reply=- rest={}", hex(b"half.example"), hex(&get)) {
+        s.oracle_fail("handshake-half-closed", &format!("a complete plain HTTP request from an application that had already half-closed: {}", &r[..r.len().min(90)]));
+    }
+    let con = b"CONNECT half.example:443 HTTP/1.1\r\nHost: half.example:443\r\n\r\n".to_vec();
+    let r = s.run(&format!("hs.run connect {} marker=- fin=1", hex(&con)));
+    if r != format!("ok d:{}:443 reply={} rest=-", hex(b"half.example"), hex(b"HTTP/1.1 200 Connection established\r\n\r\n")) {
+        s.oracle_fail("handshake-half-closed", &format!("a complete CONNECT from an application that had already half-closed: {}", &r[..r.len().min(90)]));
+    }
+    let r = s.run(&format!("hs.run http {} marker=- fin=1", hex(&get[..20])));
+    if r.starts_with("ok") || r.starts_with("wait") || r.starts_with("panic") {
+        s.oracle_fail("handshake-half-closed", &format!("an incomplete request from an application that had half-closed: {}", &r[..r.len().min(90)]));
+    }
+    s.mark_nontrivial();
+}
+
+/// request targets that are not ASCII: httparse lets raw UTF-8 through, and the target is then cut and searched as a
+/// `str` — a multi-byte character at every offset of the first 40 bytes, absolute-form and CONNECT
+pub fn http_non_ascii(s: &mut Session) {
+    s.begin_case("http-non-ascii-target");
+    for ch in ["\u{fc}", "\u{20ac}", "\u{1f600}"] {
+        for k in 0..40usize {
+            let pad = "a".repeat(k);
+            for (m, t) in [("GET", format!("http://{}{}.example/x", pad, ch)), ("GET", format!("http://{}{}.example:81/x?{}", pad, ch, ch)), ("GET", format!("{}{}://a.example/", pad, ch)), ("CONNECT", format!("{}{}.example:443", pad, ch)), ("GET", format!("http://a.example/{}{}", pad, ch))] {
+                let r = s.run(&format!("hs.http {} {}", hex(m.as_bytes()), hex(t.as_bytes())));
+                if r.starts_with("panic") {
+                    s.oracle_fail("panic:http-non-ascii-target", &format!("recognising the request target `{}` panicked", t));
+                }
+            }
+        }
+    }
+    s.mark_nontrivial();
+}
+
 pub fn handshake_early_close(s: &mut Session, thorough: bool) {
     let kinds: Vec<String> = vec!["d:6578616d706c652e6f7267:443".into(), "4:7f000001:8080".into(), "6:20010db8000000000000000000000001:53".into()];
     for (ki, addr) in kinds.iter().enumerate() {
@@ -218,25 +282,8 @@ pub fn generate(s: &mut Session, tier: &str, rng: &mut Rng) {
         }
         s.mark_nontrivial();
     }
-    // unsupported / malformed whole handshakes: no tunnel
-    s.begin_case("handshake-refused");
-    let bad: Vec<(&str, Vec<Vec<u8>>, Option<usize>)> = vec![
-        ("http", vec![b"GET /index.html HTTP/1.1\r\nHost: example.com\r\n\r\n".to_vec()], None),
-        ("http", vec![b"CONNECT example.com HTTP/1.1\r\n\r\n".to_vec()], None),
-        ("http", vec![format!("GET http://{}/ HTTP/1.1\r\n\r\n", "h".repeat(300)).into_bytes()], None),
-        ("http", vec![b"\x16\x03\x01\x02\x00\x01\x00\x01\xfc\x03\x03 junk that is not a proxy request\r\n\r\n".to_vec()], None),
-        ("socks5", vec![vec![5, 1, 0], vec![5, 2, 0, 1, 1, 2, 3, 4, 0, 80]], Some(1)),
-        ("socks5", vec![vec![5, 1, 0], vec![5, 3, 0, 1, 0, 0, 0, 0, 0, 0]], Some(1)),
-        ("socks5", vec![vec![5, 1, 0], vec![5, 1, 0, 3, 0, 0, 80]], Some(1)),
-        ("socks5", vec![vec![5, 1, 0], vec![4, 1, 0, 1, 1, 2, 3, 4, 0, 80]], Some(1)),
-        ("socks5", vec![vec![5, 1, 0], vec![5, 1, 0, 9, 1, 2, 3, 4, 0, 80]], Some(1)),
-    ];
-    for (kind, segs, split) in bad {
-        let r = s.run(&format!("hs.run {} {}{} marker=4d", kind, segs.iter().map(|p| hex(p)).collect::<Vec<_>>().join(";"), split.map(|x| format!(" split={}", x)).unwrap_or_default()));
-        if r.starts_with("ok") {
-            s.oracle_fail("handshake-refused", &format!("a malformed or unsupported {} handshake opened a tunnel: {}", kind, &r[..r.len().min(80)]));
-        }
-    }
-    s.mark_nontrivial();
+    handshake_refused(s);
     handshake_early_close(s, thorough);
+    http_non_ascii(s);
+    handshake_half_closed(s);
 }
